@@ -532,3 +532,364 @@ Proof.
     apply ckron_rev_pos. rewrite map_map. apply Forall_map. exact Hp.
   - rewrite ckron_rev_mass. simpl. rewrite !map_map. reflexivity.
 Qed.
+
+(* ------------------------------------------------------------------ affine change of interval *)
+Fixpoint bsum (n : nat) (f : nat -> Q) : Q := match n with O => 0 | S k => bsum k f + f k end.
+
+Lemma bsum_ext n f g : (forall i, (i < n)%nat -> f i == g i) -> bsum n f == bsum n g.
+Proof. induction n; intros H; simpl; [reflexivity|]. rewrite IHn, (H n) by (intros; try apply H; lia). reflexivity. Qed.
+Lemma bsum_shift n f : bsum (S n) f == f 0%nat + bsum n (fun j => f (S j)).
+Proof. induction n; simpl in *; [ring|]. rewrite IHn. ring. Qed.
+Lemma bsum_add n f g : bsum n (fun i => f i + g i) == bsum n f + bsum n g.
+Proof. induction n; simpl; [ring|]. rewrite IHn. ring. Qed.
+Lemma bsum_sub n f g : bsum n (fun i => f i - g i) == bsum n f - bsum n g.
+Proof. induction n; simpl; [ring|]. rewrite IHn. ring. Qed.
+Lemma bsum_scale n c f : bsum n (fun i => c * f i) == c * bsum n f.
+Proof. induction n; simpl; [ring|]. rewrite IHn. ring. Qed.
+
+Global Instance qpow_proper : Proper (Qeq ==> eq ==> Qeq) qpow.
+Proof. intros x y E n m <-. induction n; simpl; [reflexivity|]. rewrite IHn, E. reflexivity. Qed.
+Lemma qpow_mul x y n : qpow (x * y) n == qpow x n * qpow y n.
+Proof. induction n; simpl; [ring|]. rewrite IHn. ring. Qed.
+Lemma qpow_S_r x n : qpow x (S n) == qpow x n * x.
+Proof. simpl. ring. Qed.
+
+(* Pascal's triangle over Q *)
+Fixpoint bin (n k : nat) : Q :=
+  match k with
+  | O => 1
+  | S k' => match n with O => 0 | S n' => bin n' k' + bin n' k end
+  end.
+Lemma bin_gt n : forall k, (n < k)%nat -> bin n k == 0.
+Proof.
+  induction n; intros [|k] H; simpl; try lia; try reflexivity.
+  rewrite !IHn by lia. ring.
+Qed.
+Lemma bin_n_0 n : bin n 0 = 1. Proof. destruct n; reflexivity. Qed.
+Lemma bin_1 n : bin n 1 == qn n.
+Proof.
+  induction n; [reflexivity|]. change (bin (S n) 1) with (bin n 0 + bin n 1).
+  rewrite bin_n_0, IHn, qn_S. ring.
+Qed.
+Lemma bin_absorb n : forall k, qn (S k) * bin (S n) (S k) == qn (S n) * bin n k.
+Proof.
+  induction n as [|m IH]; intros k.
+  - destruct k as [|k]; [reflexivity|]. simpl. ring.
+  - destruct k as [|k'].
+    + rewrite bin_1, bin_n_0. change (qn 1) with 1. ring.
+    + change (bin (S (S m)) (S (S k'))) with (bin (S m) (S k') + bin (S m) (S (S k'))).
+      rewrite Qmult_plus_distr_r. rewrite (IH (S k')).
+      rewrite (qn_S (S k')). rewrite Qmult_plus_distr_l. rewrite (IH k').
+      change (bin (S m) (S k')) with (bin m k' + bin m (S k')).
+      rewrite (qn_S (S m)). ring.
+Qed.
+
+Lemma binomial x y n :
+  qpow (x + y) n == bsum (S n) (fun j => bin n j * qpow x j * qpow y (n - j)).
+Proof.
+  induction n as [|n IH].
+  - simpl. ring.
+  - change (qpow (x + y) (S n)) with ((x + y) * qpow (x + y) n). rewrite IH.
+    set (T := fun j => bin n j * qpow x j * qpow y (n - j)).
+    set (T' := fun j => bin (S n) j * qpow x j * qpow y (S n - j)).
+    set (U := fun j => bin n (S j) * qpow x (S j) * qpow y (n - j)).
+    assert (R : bsum (S (S n)) T' == qpow y (S n) + (x * bsum (S n) T + bsum (S n) U)).
+    { rewrite bsum_shift. apply Qplus_comp.
+      - unfold T'. rewrite bin_n_0, Nat.sub_0_r. simpl qpow at 1. ring.
+      - rewrite <- bsum_scale, <- bsum_add. apply bsum_ext. intros j Hj. unfold T', T, U.
+        change (bin (S n) (S j)) with (bin n j + bin n (S j)).
+        replace (S n - S j)%nat with (n - j)%nat by lia. simpl. ring. }
+    assert (Ey : y * bsum (S n) T == qpow y (S n) + bsum n U).
+    { rewrite <- bsum_scale. rewrite bsum_shift. apply Qplus_comp.
+      - unfold T. rewrite bin_n_0, Nat.sub_0_r. simpl. ring.
+      - apply bsum_ext. intros j Hj. unfold T, U. replace (n - j)%nat with (S (n - S j)) by lia. simpl. ring. }
+    assert (EU : bsum (S n) U == bsum n U).
+    { simpl. unfold U at 2. rewrite (bin_gt n (S n)) by lia. ring. }
+    rewrite R, EU. transitivity (x * bsum (S n) T + y * bsum (S n) T); [ring|]. rewrite Ey. ring.
+Qed.
+
+(* linearity of quad *)
+Lemma quad_add {X} (nodes : list X) ws f g :
+  quad nodes ws (fun x => f x + g x) == quad nodes ws f + quad nodes ws g.
+Proof. unfold quad. generalize (combine nodes ws). intros l. induction l; simpl; [ring|]. rewrite IHl. ring. Qed.
+Lemma quad_scale {X} (nodes : list X) ws c f :
+  quad nodes ws (fun x => c * f x) == c * quad nodes ws f.
+Proof. unfold quad. generalize (combine nodes ws). intros l. induction l; simpl; [ring|]. rewrite IHl. ring. Qed.
+Lemma quad_zero {X} (nodes : list X) ws : quad nodes ws (fun _ => 0) == 0.
+Proof. unfold quad. generalize (combine nodes ws). intros l. induction l; simpl; [ring|]. rewrite IHl. ring. Qed.
+Lemma quad_bsum {X} (nodes : list X) ws n (F : nat -> X -> Q) :
+  quad nodes ws (fun x => bsum n (fun j => F j x)) == bsum n (fun j => quad nodes ws (F j)).
+Proof.
+  induction n; simpl; [apply quad_zero|]. rewrite quad_add, IHn. reflexivity.
+Qed.
+Lemma quad_affine (ts ws : list Q) xm xl f :
+  quad (map (fun t => xm + xl * t) ts) (map (fun w => xl * w) ws) f
+  == xl * quad ts ws (fun t => f (xm + xl * t)).
+Proof.
+  unfold quad. revert ws. induction ts as [|t ts IH]; intros [|w ws]; simpl; try ring.
+  rewrite IH. ring.
+Qed.
+
+(* exact moments of Lebesgue measure on [lo,hi] *)
+Definition moment (lo hi : Q) (k : nat) : Q := (qpow hi (S k) - qpow lo (S k)) / qn (S k).
+
+Lemma affine_moment xm xl k :
+  xl * bsum (S k) (fun j => bin k j * qpow xl j * qpow xm (k - j) * moment (-1) 1 j)
+  == moment (xm - xl) (xm + xl) k.
+Proof.
+  unfold moment at 2.
+  assert (Hk : ~ qn (S k) == 0) by (pose proof (qn_pos (S k) ltac:(lia)); lra).
+  (* expand both powers with the binomial theorem, x := +-xl, y := xm *)
+  assert (Eb : xm + xl == xl + xm) by ring. assert (Ea : xm - xl == (- xl) + xm) by ring.
+  rewrite Eb, Ea. rewrite !binomial.
+  rewrite <- bsum_sub. rewrite (bsum_shift (S k)).
+  rewrite bin_n_0. simpl qpow at 1 2 3 4.
+  (* termwise *)
+  assert (E : bsum (S k)
+     (fun j => bin (S k) (S j) * qpow xl (S j) * qpow xm (S k - S j) -
+               bin (S k) (S j) * qpow (- xl) (S j) * qpow xm (S k - S j))
+     == qn (S k) * (xl * bsum (S k) (fun j => bin k j * qpow xl j * qpow xm (k - j) * moment (-1) 1 j))).
+  { rewrite <- !bsum_scale. apply bsum_ext. intros j Hj.
+    replace (S k - S j)%nat with (k - j)%nat by lia.
+    assert (Hj1 : ~ qn (S j) == 0) by (pose proof (qn_pos (S j) ltac:(lia)); lra).
+    assert (Hneg : qpow (- xl) (S j) == qpow (-1) (S j) * qpow xl (S j)).
+    { rewrite <- qpow_mul. apply qpow_proper; [ring | reflexivity]. }
+    rewrite Hneg. unfold moment.
+    assert (Hone : qpow 1 (S j) == 1) by (clear; induction j; simpl in *; [ring | rewrite IHj; ring]).
+    rewrite Hone.
+    pose proof (bin_absorb k j) as A.
+    set (B1 := bin (S k) (S j)) in *. set (B0 := bin k j) in *. set (s := qpow (-1) (S j)).
+    set (P := qpow xl (S j)). assert (EP : P == xl * qpow xl j) by reflexivity.
+    set (Y := qpow xm (k - j)).
+    (* B1 = qn (S k) * B0 / qn (S j) *)
+    assert (EB : B1 == qn (S k) * B0 / qn (S j)) by (field_simplify_eq; [lra | exact Hj1]).
+    rewrite EB, EP. field. exact Hj1. }
+  rewrite E. rewrite Nat.sub_0_r. simpl qpow. set (BS := bsum _ _). field. exact Hk.
+Qed.
+
+Lemma affine_spec p a b ts ws :
+  (forall k, (k <= p)%nat -> quad ts ws (fun t => qpow t k) == moment (-1) 1 k) ->
+  forall k, (k <= p)%nat ->
+    quad (fst (affine_rule a b (ts, ws))) (snd (affine_rule a b (ts, ws))) (fun x => qpow x k)
+    == moment a b k.
+Proof.
+  intros H k Hk. unfold affine_rule. simpl fst. simpl snd.
+  set (xm := (1 # 2) * (b + a)). set (xl := (1 # 2) * (b - a)).
+  rewrite quad_affine.
+  assert (Ea : a == xm - xl) by (unfold xm, xl; ring).
+  assert (Eb : b == xm + xl) by (unfold xm, xl; ring).
+  unfold moment at 1. rewrite Ea, Eb. fold (moment (xm - xl) (xm + xl) k).
+  rewrite <- affine_moment.
+  apply Qmult_comp; [reflexivity|].
+  rewrite (quad_ext _ _ _ (fun t => bsum (S k) (fun j => (bin k j * qpow xl j * qpow xm (k - j)) * qpow t j))).
+  2:{ intros t. assert (E : xm + xl * t == xl * t + xm) by ring. rewrite E, binomial.
+      apply bsum_ext. intros j _. rewrite qpow_mul. ring. }
+  rewrite (quad_bsum ts ws (S k) (fun j t => bin k j * qpow xl j * qpow xm (k - j) * qpow t j)).
+  apply bsum_ext. intros j Hj. rewrite quad_scale. rewrite H by lia. reflexivity.
+Qed.
+
+(* qnwunif: dividing the weights by the volume divides every integral by it *)
+Lemma unif_scale {X} (nodes : list X) ws a b f :
+  quad nodes (unif_weights ws a b) f
+  == quad nodes ws f / prodq (map (fun p => snd p - fst p) (combine a b)).
+Proof.
+  unfold unif_weights. set (vol := prodq _). unfold quad. revert ws.
+  induction nodes as [|x nodes IH]; intros [|w ws]; simpl; try (unfold Qdiv; ring).
+  rewrite IH. unfold Qdiv. ring.
+Qed.
+
+(* ------------------------------------------------------------------ Legendre recurrence *)
+(* (P_n, P_{n-1}, P_n', P_{n-1}') from Bonnet's recurrence j P_j = (2j-1) z P_{j-1} - (j-1) P_{j-2}
+   and its formal derivative j P_j' = (2j-1)(P_{j-1} + z P_{j-1}') - (j-1) P_{j-2}' *)
+Fixpoint legPD (n : nat) (z : Q) : Q * Q * Q * Q :=
+  match n with
+  | O => (1, 0, 0, 0)
+  | S m => let '(p1, p2, d1, d2) := legPD m z in
+           let j := qn (S m) in
+           (((2 * j - 1) * z * p1 - (j - 1) * p2) / j, p1,
+            ((2 * j - 1) * (p1 + z * d1) - (j - 1) * d2) / j, d1)
+  end.
+Definition legP (n : nat) (z : Q) : Q := fst (fst (fst (legPD n z))).
+Definition legP' (n : nat) (z : Q) : Q := snd (fst (legPD n z)).
+
+Lemma legPD_prev n z :
+  snd (fst (fst (legPD (S n) z))) = legP n z /\ snd (legPD (S n) z) = legP' n z.
+Proof.
+  unfold legP, legP'. simpl. destruct (legPD n z) as [[[p1 p2] d1] d2]. simpl. split; reflexivity.
+Qed.
+
+(* the loop of _qnwlege1 computes (P_n, P_{n-1}) *)
+Lemma lege_loop_spec : forall k j z p1 p2, (1 <= j)%nat ->
+  p1 == legP (j - 1) z -> p2 == snd (fst (fst (legPD (j - 1) z))) ->
+  fst (lege_loop k j z p1 p2) == legP (j - 1 + k) z /\
+  snd (lege_loop k j z p1 p2) == snd (fst (fst (legPD (j - 1 + k) z))).
+Proof.
+  induction k as [|k IH]; intros j z p1 p2 Hj H1 H2.
+  - rewrite Nat.add_0_r. simpl. split; assumption.
+  - cbn [lege_loop].
+    replace (j - 1 + S k)%nat with (S j - 1 + k)%nat by lia.
+    apply IH; [lia| |].
+    + rewrite Qred_correct. replace (S j - 1)%nat with (S (j - 1)) by lia.
+      unfold legP in *. simpl legPD.
+      destruct (legPD (j - 1) z) as [[[q1 q2] e1] e2]. simpl in *.
+      replace (S (j - 1)) with j by lia. rewrite H1, H2. reflexivity.
+    + replace (S j - 1)%nat with (S (j - 1)) by lia.
+      destruct (legPD_prev (j - 1) z) as [E _]. rewrite E. exact H1.
+Qed.
+
+Lemma legPD_identities n z :
+  let '(p1, p2, d1, d2) := legPD n z in
+  (z * z - 1) * d1 == qn n * (z * p1 - p2) /\ z * d1 - d2 == qn n * p1.
+Proof.
+  induction n as [|n IH].
+  - cbn [legPD]. change (qn 0) with 0. split; ring.
+  - simpl legPD. destruct (legPD n z) as [[[p1 p2] d1] d2]. destruct IH as [A C].
+    set (j := qn (S n)).
+    assert (Hj : j == qn n + 1) by apply qn_S.
+    assert (Hj0 : ~ j == 0) by (pose proof (qn_pos (S n) ltac:(lia)); unfold j; lra).
+    set (p1' := ((2 * j - 1) * z * p1 - (j - 1) * p2) / j).
+    set (d1' := ((2 * j - 1) * (p1 + z * d1) - (j - 1) * d2) / j).
+    assert (Ed2 : d2 == z * d1 - qn n * p1) by lra.
+    assert (B : d1' == z * d1 + j * p1).
+    { unfold d1'. rewrite Ed2. assert (En : qn n == j - 1) by lra. rewrite En. field. exact Hj0. }
+    assert (Ep : j * p1' == (2 * j - 1) * z * p1 - (j - 1) * p2) by (unfold p1'; field; exact Hj0).
+    assert (A' : (z * z - 1) * d1 == (j - 1) * (z * p1 - p2)) by (rewrite A; assert (En : qn n == j - 1) by lra; rewrite En; reflexivity).
+    split.
+    + rewrite B. transitivity (z * ((z * z - 1) * d1) + j * (z * z - 1) * p1); [ring|].
+      rewrite A'. transitivity (z * (j * p1') - j * p1); [rewrite Ep; ring | ring].
+    + rewrite B. transitivity ((z * z - 1) * d1 + j * z * p1); [ring|]. rewrite A', Ep. ring.
+Qed.
+
+(* lege_eval returns P_n(z) and, away from z = +-1, the formal derivative P_n'(z) *)
+Lemma lege_eval_spec n z : ~ z * z - 1 == 0 ->
+  fst (lege_eval n z) == legP n z /\ snd (lege_eval n z) == legP' n z.
+Proof.
+  intros Hz. unfold lege_eval.
+  destruct (lege_loop_spec n 1 z 1 0 ltac:(lia)) as [E1 E2]; [reflexivity | reflexivity |].
+  simpl Nat.sub in E1, E2. simpl Nat.add in E1, E2.
+  destruct (lege_loop n 1 z 1 0) as [p1 p2]. simpl fst in *. simpl snd in *.
+  split; [exact E1|].
+  pose proof (legPD_identities n z) as I. unfold legP, legP' in *.
+  destruct (legPD n z) as [[[q1 q2] d1] d2]. simpl in *. destruct I as [A _].
+  rewrite E1, E2. rewrite <- A. field. exact Hz.
+Qed.
+
+Lemma legP_at_1 n : legP n 1 == 1 /\ snd (fst (fst (legPD n 1))) == (if Nat.eqb n 0 then 0 else 1).
+Proof.
+  unfold legP. induction n as [|n IH]; [simpl; split; reflexivity|].
+  simpl legPD. destruct (legPD n 1) as [[[p1 p2] d1] d2]. simpl in *. destruct IH as [I1 I2].
+  assert (Hj0 : ~ qn (S n) == 0) by (pose proof (qn_pos (S n) ltac:(lia)); lra).
+  split; [|exact I1]. rewrite I1, I2. destruct n as [|n]; simpl Nat.eqb; cbv iota.
+  - change (qn 1) with 1. field.
+  - field. exact Hj0.
+Qed.
+
+(* ------------------------------------------------------------------ end to end: qnwtrap / qnwsimp in 2 and 3 dimensions *)
+Definition lin (c : Q * Q) (x : Q) : Q := fst c + snd c * x.
+Definition lin_int (c : Q * Q) (a b : Q) : Q := fst c * (b - a) + snd c * ((b * b - a * a) * (1 # 2)).
+Definition cub (c : Q * Q * Q * Q) (x : Q) : Q :=
+  let '(c0, c1, c2, c3) := c in c0 + c1 * x + c2 * (x * x) + c3 * (x * x * x).
+Definition cub_int (c : Q * Q * Q * Q) (a b : Q) : Q :=
+  let '(c0, c1, c2, c3) := c in
+  c0 * (b - a) + c1 * ((b * b - a * a) * (1 # 2)) + c2 * ((b * b * b - a * a * a) * (1 # 3))
+  + c3 * ((b * b * b * b - a * a * a * a) * (1 # 4)).
+
+Lemma qnwtrap_2d n1 a1 b1 n2 a2 b2 c1 c2 :
+  (2 <= n1)%nat -> a1 < b1 -> (2 <= n2)%nat -> a2 < b2 ->
+  exists nodes weights, qnwtrap [(n1, a1, b1); (n2, a2, b2)] = Some (nodes, weights) /\
+    length nodes = (n2 * n1)%nat /\ length weights = (n2 * n1)%nat /\
+    Forall (fun w => 0 < w) weights /\
+    sumq weights == (b1 - a1) * (b2 - a2) /\
+    quad nodes weights (prodfun [lin c1; lin c2]) == lin_int c1 a1 b1 * lin_int c2 a2 b2.
+Proof.
+  intros H1 H1' H2 H2'.
+  destruct (trap_spec n1 a1 b1 H1 H1') as [x1 [w1 [E1 [L1 [L1' [_ [P1 [M1 Q1]]]]]]]].
+  destruct (trap_spec n2 a2 b2 H2 H2') as [x2 [w2 [E2 [L2 [L2' [_ [P2 [M2 Q2]]]]]]]].
+  unfold qnwtrap, make_multidim. simpl map. simpl fst. simpl snd. rewrite E1, E2. simpl all_some.
+  destruct (tensor_spec [((x1, w1), (lin c1, lin_int c1 a1 b1)); ((x2, w2), (lin c2, lin_int c2 a2 b2))])
+    as [nodes [weights [E [L [P [M Qd]]]]]].
+  - simpl. lia.
+  - repeat constructor; simpl; try lia; [destruct c1 as [u v]; apply Q1 | destruct c2 as [u v]; apply Q2].
+  - simpl map in E. rewrite E. exists nodes, weights. split; [reflexivity|].
+    assert (Lw : length weights = (n2 * n1)%nat).
+    { unfold tensor_rule in E. simpl in E. inversion E; subst. rewrite length_kron. lia. }
+    split; [lia|]. split; [exact Lw|]. split; [apply P; repeat constructor; assumption|].
+    split; [rewrite M; simpl; rewrite M1, M2; ring|].
+    rewrite Qd. simpl. ring.
+Qed.
+
+Lemma qnwtrap_3d n1 a1 b1 n2 a2 b2 n3 a3 b3 c1 c2 c3 :
+  (2 <= n1)%nat -> a1 < b1 -> (2 <= n2)%nat -> a2 < b2 -> (2 <= n3)%nat -> a3 < b3 ->
+  exists nodes weights, qnwtrap [(n1, a1, b1); (n2, a2, b2); (n3, a3, b3)] = Some (nodes, weights) /\
+    length nodes = length weights /\
+    Forall (fun w => 0 < w) weights /\
+    sumq weights == (b1 - a1) * (b2 - a2) * (b3 - a3) /\
+    quad nodes weights (prodfun [lin c1; lin c2; lin c3])
+    == lin_int c1 a1 b1 * lin_int c2 a2 b2 * lin_int c3 a3 b3.
+Proof.
+  intros H1 H1' H2 H2' H3 H3'.
+  destruct (trap_spec n1 a1 b1 H1 H1') as [x1 [w1 [E1 [L1 [L1' [_ [P1 [M1 Q1]]]]]]]].
+  destruct (trap_spec n2 a2 b2 H2 H2') as [x2 [w2 [E2 [L2 [L2' [_ [P2 [M2 Q2]]]]]]]].
+  destruct (trap_spec n3 a3 b3 H3 H3') as [x3 [w3 [E3 [L3 [L3' [_ [P3 [M3 Q3]]]]]]]].
+  unfold qnwtrap, make_multidim. simpl map. simpl fst. simpl snd. rewrite E1, E2, E3. simpl all_some.
+  destruct (tensor_spec [((x1, w1), (lin c1, lin_int c1 a1 b1)); ((x2, w2), (lin c2, lin_int c2 a2 b2));
+                         ((x3, w3), (lin c3, lin_int c3 a3 b3))])
+    as [nodes [weights [E [L [P [M Qd]]]]]].
+  - simpl. lia.
+  - repeat constructor; simpl; try lia;
+      [destruct c1 as [u v]; apply Q1 | destruct c2 as [u v]; apply Q2 | destruct c3 as [u v]; apply Q3].
+  - simpl map in E. rewrite E. exists nodes, weights. split; [reflexivity|].
+    split; [exact L|]. split; [apply P; repeat constructor; assumption|].
+    split; [rewrite M; simpl; rewrite M1, M2, M3; ring|].
+    rewrite Qd. simpl. ring.
+Qed.
+
+Lemma qnwsimp_2d n1 a1 b1 n2 a2 b2 c1 c2 :
+  (2 <= n1)%nat -> a1 < b1 -> (2 <= n2)%nat -> a2 < b2 ->
+  exists nodes weights, qnwsimp [(n1, a1, b1); (n2, a2, b2)] = Some (nodes, weights) /\
+    length nodes = length weights /\
+    Forall (fun w => 0 < w) weights /\
+    sumq weights == (b1 - a1) * (b2 - a2) /\
+    quad nodes weights (prodfun [cub c1; cub c2]) == cub_int c1 a1 b1 * cub_int c2 a2 b2.
+Proof.
+  intros H1 H1' H2 H2'.
+  destruct (simp_spec' n1 a1 b1 H1 H1') as [x1 [w1 [E1 [L1 [L1' [_ [P1 [M1 Q1]]]]]]]].
+  destruct (simp_spec' n2 a2 b2 H2 H2') as [x2 [w2 [E2 [L2 [L2' [_ [P2 [M2 Q2]]]]]]]].
+  unfold qnwsimp, make_multidim. simpl map. simpl fst. simpl snd. rewrite E1, E2. simpl all_some.
+  destruct (tensor_spec [((x1, w1), (cub c1, cub_int c1 a1 b1)); ((x2, w2), (cub c2, cub_int c2 a2 b2))])
+    as [nodes [weights [E [L [P [M Qd]]]]]].
+  - simpl. lia.
+  - repeat constructor; simpl; try lia;
+      [destruct c1 as [[[u0 u1] u2] u3]; apply Q1 | destruct c2 as [[[u0 u1] u2] u3]; apply Q2].
+  - simpl map in E. rewrite E. exists nodes, weights. split; [reflexivity|].
+    split; [exact L|]. split; [apply P; repeat constructor; assumption|].
+    split; [rewrite M; simpl; rewrite M1, M2; ring|].
+    rewrite Qd. simpl. ring.
+Qed.
+
+Lemma qnwsimp_3d n1 a1 b1 n2 a2 b2 n3 a3 b3 c1 c2 c3 :
+  (2 <= n1)%nat -> a1 < b1 -> (2 <= n2)%nat -> a2 < b2 -> (2 <= n3)%nat -> a3 < b3 ->
+  exists nodes weights, qnwsimp [(n1, a1, b1); (n2, a2, b2); (n3, a3, b3)] = Some (nodes, weights) /\
+    length nodes = length weights /\
+    Forall (fun w => 0 < w) weights /\
+    sumq weights == (b1 - a1) * (b2 - a2) * (b3 - a3) /\
+    quad nodes weights (prodfun [cub c1; cub c2; cub c3])
+    == cub_int c1 a1 b1 * cub_int c2 a2 b2 * cub_int c3 a3 b3.
+Proof.
+  intros H1 H1' H2 H2' H3 H3'.
+  destruct (simp_spec' n1 a1 b1 H1 H1') as [x1 [w1 [E1 [L1 [L1' [_ [P1 [M1 Q1]]]]]]]].
+  destruct (simp_spec' n2 a2 b2 H2 H2') as [x2 [w2 [E2 [L2 [L2' [_ [P2 [M2 Q2]]]]]]]].
+  destruct (simp_spec' n3 a3 b3 H3 H3') as [x3 [w3 [E3 [L3 [L3' [_ [P3 [M3 Q3]]]]]]]].
+  unfold qnwsimp, make_multidim. simpl map. simpl fst. simpl snd. rewrite E1, E2, E3. simpl all_some.
+  destruct (tensor_spec [((x1, w1), (cub c1, cub_int c1 a1 b1)); ((x2, w2), (cub c2, cub_int c2 a2 b2));
+                         ((x3, w3), (cub c3, cub_int c3 a3 b3))])
+    as [nodes [weights [E [L [P [M Qd]]]]]].
+  - simpl. lia.
+  - repeat constructor; simpl; try lia;
+      [destruct c1 as [[[u0 u1] u2] u3]; apply Q1 | destruct c2 as [[[u0 u1] u2] u3]; apply Q2
+       | destruct c3 as [[[u0 u1] u2] u3]; apply Q3].
+  - simpl map in E. rewrite E. exists nodes, weights. split; [reflexivity|].
+    split; [exact L|]. split; [apply P; repeat constructor; assumption|].
+    split; [rewrite M; simpl; rewrite M1, M2, M3; ring|].
+    rewrite Qd. simpl. ring.
+Qed.
